@@ -188,4 +188,54 @@ def InstanceOK (cfg : Cfg) (s : State) : Prop :=
 
 instance (cfg : Cfg) (s : State) : Decidable (InstanceOK cfg s) := by unfold InstanceOK; infer_instance
 
+/-! ### L1: the generator (`generator.py` `Generator.__call__` / `UniformSamplingGenerator`,
+`utils.create_flat_mine_locations`) -/
+
+/-- support of the draw `jax.random.choice(key, num_rows * num_cols, shape=(num_mines,), replace=False)`
+(sampling WITHOUT replacement): `num_mines` pairwise distinct flat cell indices below `rows * cols` -/
+def validDraw (cfg : Cfg) (d : List Nat) : Prop :=
+  d.length = cfg.numMines ∧ d.Nodup ∧ ∀ m ∈ d, m < cfg.numRows * cfg.numCols
+
+instance (cfg : Cfg) (d : List Nat) : Decidable (validDraw cfg d) := by unfold validDraw; infer_instance
+
+/-- `Generator.__call__` with the drawn mine locations as a parameter:
+`board = jnp.full((num_rows, num_cols), UNEXPLORED_ID)`, `step_count = 0`,
+`flat_mine_locations = create_flat_mine_locations(...)` (the key is not modelled) -/
+def generate (cfg : Cfg) (d : List Nat) : State :=
+  { board := Grid.mk cfg.numRows cfg.numCols (-1), stepCount := 0, mines := d.map Int.ofNat }
+
+/-- the draw read off a state (inverse of `generate` on the mine table) -/
+def drawOf (s : State) : List Nat := s.mines.map Int.toNat
+
+/-! ### whole episodes (C08): the L1 `step` folded over an action list, stopping at the first LAST step -/
+
+/-- how a played action list ended: no LAST step yet / all safe squares revealed / a mine revealed / an already
+revealed square selected -/
+inductive Ending | running | cleared | mine | invalid
+  deriving DecidableEq, Repr
+
+structure Outcome where
+  final : State
+  ret : Rat
+  ending : Ending
+
+/-- play the actions with the L1 `step` until the first LAST time step: final state, sum of the rewards, and the
+reason of the end (classified by the rules: `legal`, `isMine`) -/
+def play (cfg : Cfg) (s : State) : List (Nat × Nat) → Outcome
+  | [] => ⟨s, 0, .running⟩
+  | a :: as =>
+    if (step cfg s a.1 a.2).2.stepType = .last then
+      ⟨(step cfg s a.1 a.2).1, (step cfg s a.1 a.2).2.reward.sum,
+        if legal s a.1 a.2 then (if isMine s a.1 a.2 then .mine else .cleared) else .invalid⟩
+    else
+      ⟨(play cfg (step cfg s a.1 a.2).1 as).final,
+       (step cfg s a.1 a.2).2.reward.sum + (play cfg (step cfg s a.1 a.2).1 as).ret,
+       (play cfg (step cfg s a.1 a.2).1 as).ending⟩
+
+/-- the documented terminal term of the return -/
+def terminalTerm (cfg : Cfg) : Ending → Rat
+  | .mine => cfg.rMine
+  | .invalid => cfg.rInvalid
+  | _ => 0
+
 end Minesweeper
